@@ -24,6 +24,10 @@ def run(rec, hub, tier, seed, shard, nshards, budget):
     bystand.register(hub, "C10")
     rec.require(dsm.M10, 50)
     n = 300 if tier == "quick" else 2500
+    if shard == 0:
+        for g in range(2 if tier == "quick" else 6):
+            rec.set_case(driver="c10.wide", seed=seed, tier=tier, shard=shard, nshards=nshards, idx=g)
+            dsm.c10_wide_case(rec, hub, case_nprng(seed, "c10.wide", 0, g))
     for k in range(n):
         if not budget.ok():
             break
@@ -37,4 +41,7 @@ def replay(rec, hub, case):
 
     bystand.register(hub, "C10")
     rec.set_case(**case)
+    if case["driver"] == "c10.wide":
+        dsm.c10_wide_case(rec, hub, case_nprng(case["seed"], "c10.wide", 0, case["idx"]))
+        return
     dsm.c10_case(rec, hub, case_nprng(case["seed"], "c10.case", 0, case["idx"]), case.get("tier", "quick"))
